@@ -64,12 +64,14 @@ package oauth2
 //@ interface TokenRevocationStorage.RevokeAccessToken
 //@   modifies acc_exists, faults
 //@   ensures err == nil ==> (forall s string :: acc_exists[s] == (old(acc_exists[s]) && acc_rid[s] != requestID)) && faults == old(faults)
-//@   ensures err != nil ==> acc_exists == old(acc_exists) && faults == old(faults) + 1
+//@   ensures err != nil && eis(err, fosite.ErrNotFound) ==> acc_exists == old(acc_exists) && (forall s string :: acc_exists[s] ==> acc_rid[s] != requestID) && faults == old(faults)
+//@   ensures err != nil && !eis(err, fosite.ErrNotFound) ==> acc_exists == old(acc_exists) && faults == old(faults) + 1
 
 //@ interface TokenRevocationStorage.RevokeRefreshToken
 //@   modifies ref_active, faults
 //@   ensures err == nil ==> (forall s string :: ref_active[s] == (old(ref_active[s]) && !(ref_exists[s] && ref_rid[s] == requestID))) && faults == old(faults)
-//@   ensures err != nil ==> ref_active == old(ref_active) && faults == old(faults) + 1
+//@   ensures err != nil && eis(err, fosite.ErrNotFound) ==> ref_active == old(ref_active) && (forall s string :: ref_exists[s] && ref_rid[s] == requestID ==> !ref_active[s]) && faults == old(faults)
+//@   ensures err != nil && !eis(err, fosite.ErrNotFound) ==> ref_active == old(ref_active) && faults == old(faults) + 1
 
 //@ interface RefreshTokenStorage.RotateRefreshToken
 //@   modifies ref_active, acc_exists, faults
@@ -115,3 +117,132 @@ package oauth2
 //@   ensures [C02.success-needs-live-code] err == nil ==> old(code_exists[sig]) && old(code_active[sig])
 //@   ensures [C02.grant-overrides-request] err == nil ==> request.GetID() == rid && request.GetRequestedScopes() == old(code_req[sig]).GetRequestedScopes() && request.GetRequestedAudience() == old(code_req[sig]).GetRequestedAudience() && request.GetSession() == old(code_req[sig]).GetSession()
 //@   ensures [C02.failed-attempt-leaves-code] code_exists == old(code_exists) && code_active == old(code_active)
+
+//@ func getExpiresIn
+//@   ensures [C07.expires-in-consistent] r.GetSession().GetExpiresAt(key) == 0 ==> result == defaultLifespan
+//@   ensures [C07.expires-in-consistent] r.GetSession().GetExpiresAt(key) != 0 ==> result == r.GetSession().GetExpiresAt(key) - now
+
+// A refresh token is issued only if the grant has one of the configured refresh scopes (when any are
+// configured) and the client is registered for the refresh_token grant.
+//@ func canIssueRefreshToken
+//@   ensures [C05.refresh-issuance-rule] result <==> ((len(c.Config.GetRefreshTokenScopes(ctx)) == 0 || request.GetGrantedScopes().HasOneOf(c.Config.GetRefreshTokenScopes(ctx))) && request.GetClient().GetGrantTypes().Has("refresh_token"))
+
+//@ func (*AuthorizeExplicitGrantHandler).PopulateTokenEndpointResponse
+//@   let code = formget(old(requester.GetRequestForm()), "code")
+//@   let sig  = old(c.AuthorizeCodeStrategy.AuthorizeCodeSignature(ctx, code))
+//@   let txl  = implements(c.CoreStorage, storage.Transactional)
+//@   requires c != nil && requester != nil && responder != nil && !stored[requester]
+//@   modifies code_active, acc_exists, acc_rid, acc_client, acc_req, ref_exists, ref_active, ref_rid, ref_client, ref_acc, ref_req, stored, faults, tx_open, tx_begun, tx_committed, tx_rolledback, tx_commit_calls, tx_rollback_calls, snap_code_active, snap_acc_exists, snap_ref_exists, snap_ref_active
+//@   ensures [C01.redeem-needs-live-code] err == nil ==> old(code_exists[sig]) && old(code_active[sig])
+//@   ensures [C01.redeem-invalidates] err == nil ==> !code_active[sig]
+//@   ensures [C01.issued-with-request-id] err == nil ==> (forall s string :: acc_exists[s] && !old(acc_exists[s]) ==> acc_rid[s] == requester.GetID()) && (forall s string :: ref_exists[s] && !old(ref_exists[s]) ==> ref_rid[s] == requester.GetID())
+//@   assert @call(CreateAccessTokenSession)#1 [C01.invalidate-before-create] !code_active[sig]
+//@   assert @call(CreateRefreshTokenSession)#1 [C01.invalidate-before-create] !code_active[sig]
+//@   ensures [C18.error-means-fault-or-refusal] err != nil ==> ekind(err) == "server_error" || ekind(err) == "invalid_request" || ekind(err) == "error"
+//@   ensures [C18.unexpected-error-refuses] faults != old(faults) ==> err != nil
+//@   ensures [C18.tx-balanced] faults == old(faults) ==> tx_open == old(tx_open)
+//@   ensures [C18.tx-begun-once] tx_begun <= old(tx_begun) + 1 && tx_committed + tx_rolledback <= old(tx_committed) + old(tx_rolledback) + 1
+//@   ensures [C18.begin-matched-once] txl && tx_begun == old(tx_begun) + 1 ==> (tx_committed == old(tx_committed) + 1 && tx_rollback_calls == old(tx_rollback_calls)) || (tx_committed == old(tx_committed) && tx_rollback_calls == old(tx_rollback_calls) + 1)
+//@   ensures [C18.no-end-without-begin] tx_begun == old(tx_begun) ==> tx_commit_calls == old(tx_commit_calls) && tx_rollback_calls == old(tx_rollback_calls)
+//@   ensures [C18.no-commit-after-failure] tx_committed != old(tx_committed) ==> err == nil && faults == old(faults)
+//@   ensures [C18.commit-on-success] err == nil && txl ==> tx_committed == old(tx_committed) + 1
+//@   ensures [C18.rollback-restores] txl && err != nil && tx_rolledback == old(tx_rolledback) + 1 ==> code_active == old(code_active) && acc_exists == old(acc_exists) && ref_exists == old(ref_exists) && ref_active == old(ref_active)
+//@   ensures [C18.no-change-before-begin] txl && err != nil && tx_begun == old(tx_begun) ==> code_active == old(code_active) && acc_exists == old(acc_exists) && ref_exists == old(ref_exists)
+//@   ensures [C18.fail-closed] (forall s string :: acc_exists[s] && !old(acc_exists[s]) ==> !code_active[sig]) && (forall s string :: ref_exists[s] && !old(ref_exists[s]) ==> !code_active[sig])
+
+// ---------------------------------------------------------------- C04 / C05 / C18: refresh flow
+
+//@ spec func tables_unchanged() bool = code_active == old(code_active) && acc_exists == old(acc_exists) && ref_exists == old(ref_exists) && ref_active == old(ref_active)
+//@ spec func tables_restored() bool = code_active == snap_code_active && acc_exists == snap_acc_exists && ref_exists == snap_ref_exists && ref_active == snap_ref_active
+
+//@ func (*RefreshTokenGrantHandler).CanHandleTokenEndpointRequest
+//@   pure
+//@   ensures result == requester.GetGrantTypes().ExactOne("refresh_token")
+
+//@ func (*RefreshTokenGrantHandler).handleRefreshTokenEndpointStorageError
+//@   let txl = implements(c.TokenRevocationStorage, storage.Transactional)
+//@   requires c != nil
+//@   modifies tx_open, tx_rolledback, tx_rollback_calls, code_active, acc_exists, ref_exists, ref_active, faults
+//@   ensures [C18.storage-error-nil-passes] storageErr == nil ==> err == nil && tables_unchanged() && tx_open == old(tx_open) && tx_rolledback == old(tx_rolledback) && tx_rollback_calls == old(tx_rollback_calls) && faults == old(faults)
+//@   ensures [C18.storage-error-refuses] storageErr != nil ==> err != nil
+//@   ensures [C18.faults-monotone] faults >= old(faults)
+//@   ensures [C18.storage-error-rolls-back] storageErr != nil && txl ==> tx_rollback_calls == old(tx_rollback_calls) + 1
+//@   ensures [C18.storage-error-rolls-back] storageErr != nil && txl && faults == old(faults) ==> tables_restored() && tx_open == old(tx_open) - 1 && tx_rolledback == old(tx_rolledback) + 1
+//@   ensures [C18.storage-error-rolls-back] storageErr != nil && txl && faults != old(faults) ==> tables_unchanged() && tx_open == old(tx_open) && tx_rolledback == old(tx_rolledback)
+//@   ensures [C18.storage-error-rolls-back] !txl ==> tables_unchanged() && tx_open == old(tx_open) && tx_rolledback == old(tx_rolledback) && tx_rollback_calls == old(tx_rollback_calls) && faults == old(faults)
+//@   ensures [C18.serialization-is-retryable] storageErr != nil && eis(storageErr, fosite.ErrSerializationFailure) && faults == old(faults) ==> ekind(err) == "invalid_request"
+//@   ensures [C18.conflict-is-retryable] storageErr != nil && (eis(storageErr, fosite.ErrNotFound) || eis(storageErr, fosite.ErrInactiveToken)) && faults == old(faults) ==> ekind(err) == "invalid_request"
+//@   ensures [C18.storage-error-class] storageErr != nil ==> ekind(err) == "invalid_request" || ekind(err) == "server_error"
+
+//@ func (*RefreshTokenGrantHandler).handleRefreshTokenReuse
+//@   let txl = implements(c.TokenRevocationStorage, storage.Transactional)
+//@   let rid = old(req.GetID())
+//@   requires c != nil && req != nil
+//@   modifies tx_open, tx_begun, tx_committed, tx_rolledback, tx_commit_calls, tx_rollback_calls, snap_code_active, snap_acc_exists, snap_ref_exists, snap_ref_active, code_active, acc_exists, ref_exists, ref_active, faults
+//@   ensures [C04.reuse-kills-family] err == nil ==> !ref_exists[signature] && (forall s string :: old(acc_exists[s]) && acc_rid[s] == rid ==> !acc_exists[s]) && (forall s string :: ref_exists[s] && ref_rid[s] == rid ==> !ref_active[s])
+//@   ensures [C04.reuse-touches-only-family] (forall s string :: acc_rid[s] != rid ==> acc_exists[s] == old(acc_exists[s])) && (forall s string :: ref_rid[s] != rid && s != signature ==> ref_active[s] == old(ref_active[s]) && ref_exists[s] == old(ref_exists[s]))
+//@   ensures [C04.reuse-issues-nothing] code_active == old(code_active) && (forall s string :: acc_exists[s] ==> old(acc_exists[s])) && (forall s string :: ref_active[s] ==> old(ref_active[s])) && (forall s string :: ref_exists[s] ==> old(ref_exists[s]))
+//@   ensures [C18.reuse-fault-refuses] faults != old(faults) ==> err != nil
+//@   ensures [C04.reuse-fails-only-on-fault] err != nil ==> faults != old(faults)
+//@   ensures [C18.reuse-begin-matched-once] txl && tx_begun == old(tx_begun) + 1 ==> (tx_committed == old(tx_committed) + 1 && tx_rollback_calls == old(tx_rollback_calls)) || (tx_committed == old(tx_committed) && tx_rollback_calls == old(tx_rollback_calls) + 1)
+//@   ensures [C18.reuse-no-commit-after-failure] tx_committed != old(tx_committed) ==> err == nil
+//@   ensures [C18.reuse-error-class] err != nil ==> ekind(err) == "invalid_request" || ekind(err) == "server_error"
+
+//@ func (*RefreshTokenGrantHandler).HandleTokenEndpointRequest
+//@   let refresh = formget(old(request.GetRequestForm()), "refresh_token")
+//@   let sig  = old(c.RefreshTokenStrategy.RefreshTokenSignature(ctx, refresh))
+//@   let reuse = old(ref_exists[sig]) && !old(ref_active[sig])
+//@   let rid  = old(ref_rid[sig])
+//@   let orig = old(ref_req[sig])
+//@   let canhandle = c.CanHandleTokenEndpointRequest(ctx, request) && old(request.GetClient().GetGrantTypes()).Has("refresh_token")
+//@   requires c != nil && request != nil && !stored[request] && request.GetClient() != nil
+//@   modifies tx_open, tx_begun, tx_committed, tx_rolledback, tx_commit_calls, tx_rollback_calls, snap_code_active, snap_acc_exists, snap_ref_exists, snap_ref_active, code_active, acc_exists, ref_exists, ref_active, faults
+//@   ensures [C04.inactive-is-refused] reuse ==> err != nil
+//@   ensures [C04.reuse-error-class] reuse && canhandle ==> ekind(err) == "invalid_grant" || ekind(err) == "invalid_request" || ekind(err) == "server_error"
+//@   ensures [C04.reuse-invalid-grant-unless-fault] reuse && canhandle && faults == old(faults) ==> ekind(err) == "invalid_grant"
+//@   ensures [C04.reuse-kills-family] reuse && canhandle && faults == old(faults) ==> !ref_exists[sig] && (forall s string :: old(acc_exists[s]) && acc_rid[s] == rid ==> !acc_exists[s]) && (forall s string :: ref_exists[s] && ref_rid[s] == rid ==> !ref_active[s])
+//@   ensures [C04.other-grants-untouched] (forall s string :: acc_rid[s] != rid ==> acc_exists[s] == old(acc_exists[s])) && (forall s string :: ref_rid[s] != rid && s != sig ==> ref_active[s] == old(ref_active[s]) && ref_exists[s] == old(ref_exists[s]))
+//@   ensures [C04.handle-issues-nothing] code_active == old(code_active) && (forall s string :: acc_exists[s] ==> old(acc_exists[s])) && (forall s string :: ref_active[s] ==> old(ref_active[s])) && (forall s string :: ref_exists[s] ==> old(ref_exists[s]))
+//@   ensures [C04.success-needs-active] err == nil ==> old(ref_exists[sig]) && old(ref_active[sig]) && tables_unchanged()
+//@   ensures [C04.unknown-is-invalid-grant] canhandle && !old(ref_exists[sig]) && faults == old(faults) ==> ekind(err) == "invalid_grant"
+//@   ensures [C05.same-client] err == nil ==> old(ref_client[sig]) == request.GetClient().GetID()
+//@   ensures [C05.client-has-refresh-grant] err == nil ==> old(request.GetClient().GetGrantTypes()).Has("refresh_token")
+//@   ensures [C05.grant-copied] err == nil ==> request.GetID() == rid && request.GetRequestedScopes() == orig.GetRequestedScopes() && request.GetRequestedAudience() == orig.GetRequestedAudience()
+//@   ensures [C05.subject-preserved] err == nil ==> request.GetSession() != orig.GetSession() && request.GetSession().GetSubject() == orig.GetSession().GetSubject() && request.GetSession().GetUsername() == orig.GetSession().GetUsername()
+//@   ensures [C05.scopes-still-allowed] err == nil ==> (forall j int :: 0 <= j && j < len(orig.GetGrantedScopes()) ==> call(c.Config.GetScopeStrategy(ctx), request.GetClient().GetScopes(), orig.GetGrantedScopes()[j]))
+//@   ensures [C05.audience-still-allowed] err == nil ==> call(c.Config.GetAudienceStrategy(ctx), request.GetClient().GetAudience(), orig.GetGrantedAudience()) == nil
+//@   ensures [C05.granted-from-original-only] err == nil ==> (forall x string :: insl(request.GetGrantedScopes(), x) ==> insl(old(request.GetGrantedScopes()), x) || insl(orig.GetGrantedScopes(), x)) && (forall x string :: insl(request.GetGrantedAudience(), x) ==> insl(old(request.GetGrantedAudience()), x) || insl(orig.GetGrantedAudience(), x))
+//@   ensures [C05.refresh-scope-needed] err == nil ==> len(c.Config.GetRefreshTokenScopes(ctx)) == 0 || orig.GetGrantedScopes().HasOneOf(c.Config.GetRefreshTokenScopes(ctx))
+//@   invariant loop#1 [C05.scopes-still-allowed] $i <= len(originalRequest.GetGrantedScopes()) && originalRequest != request && originalRequest.GetGrantedScopes() == pre(originalRequest.GetGrantedScopes())
+//@   invariant loop#1 [C05.scopes-still-allowed] forall j int :: 0 <= j && j < $i ==> call(c.Config.GetScopeStrategy(ctx), request.GetClient().GetScopes(), originalRequest.GetGrantedScopes()[j])
+//@   invariant loop#1 [C05.granted-from-original-only] forall x string :: insl(request.GetGrantedScopes(), x) ==> insl(old(request.GetGrantedScopes()), x) || insl(originalRequest.GetGrantedScopes(), x)
+//@   invariant loop#2 [C05.granted-from-original-only] $i <= len(originalRequest.GetGrantedAudience()) && originalRequest != request && originalRequest.GetGrantedAudience() == pre(originalRequest.GetGrantedAudience())
+//@   invariant loop#2 [C05.granted-from-original-only] (forall x string :: insl(request.GetGrantedAudience(), x) ==> insl(old(request.GetGrantedAudience()), x) || insl(originalRequest.GetGrantedAudience(), x))
+
+//@ func (*RefreshTokenGrantHandler).PopulateTokenEndpointResponse
+//@   let refresh = formget(old(requester.GetRequestForm()), "refresh_token")
+//@   let sig  = old(c.RefreshTokenStrategy.RefreshTokenSignature(ctx, refresh))
+//@   let rid  = old(requester.GetID())
+//@   let txl  = implements(c.TokenRevocationStorage, storage.Transactional)
+//@   let asig = c.AccessTokenStrategy.AccessTokenSignature(ctx, responder.GetAccessToken())
+//@   let rsig = c.RefreshTokenStrategy.RefreshTokenSignature(ctx, unbox(responder.GetExtra("refresh_token"), string))
+//@   requires c != nil && requester != nil && responder != nil && !stored[requester]
+//@   modifies code_active, acc_exists, acc_rid, acc_client, acc_req, ref_exists, ref_active, ref_rid, ref_client, ref_acc, ref_req, stored, faults, tx_open, tx_begun, tx_committed, tx_rolledback, tx_commit_calls, tx_rollback_calls, snap_code_active, snap_acc_exists, snap_ref_exists, snap_ref_active
+//@   ensures [C04.rotate-then-create] err == nil ==> acc_exists[asig] && acc_rid[asig] == rid && ref_exists[rsig] && ref_active[rsig] && ref_rid[rsig] == rid && ref_acc[rsig] == asig
+//@   ensures [C04.only-new-pair-live] err == nil ==> (forall s string :: acc_exists[s] && acc_rid[s] == rid ==> s == asig) && (forall s string :: ref_exists[s] && ref_active[s] && ref_rid[s] == rid ==> s == rsig)
+//@   ensures [C04.presented-becomes-inactive] err == nil && old(ref_exists[sig]) && old(ref_rid[sig]) == rid && sig != rsig ==> !ref_active[sig]
+//@   ensures [C04.other-grants-untouched] err == nil ==> (forall s string :: s != asig && old(acc_rid[s]) != rid ==> acc_exists[s] == old(acc_exists[s]) && acc_rid[s] == old(acc_rid[s])) && (forall s string :: s != rsig && old(ref_rid[s]) != rid ==> ref_exists[s] == old(ref_exists[s]) && ref_active[s] == old(ref_active[s]) && ref_rid[s] == old(ref_rid[s]))
+//@   ensures [C04.other-grants-never-removed] (forall s string :: old(acc_exists[s]) && old(acc_rid[s]) != rid ==> acc_exists[s]) && (forall s string :: old(ref_exists[s]) && old(ref_active[s]) && old(ref_rid[s]) != rid ==> ref_exists[s] && ref_active[s])
+//@   ensures [C04.codes-untouched] code_active == old(code_active)
+//@   assert @call(CreateAccessTokenSession)#1 [C04.rotation-precedes-creation] (forall s string :: acc_exists[s] ==> acc_rid[s] != rid) && (forall s string :: ref_exists[s] && ref_rid[s] == rid ==> !ref_active[s])
+//@   ensures [C18.unexpected-error-refuses] faults != old(faults) ==> err != nil
+//@   ensures [C18.error-class] err != nil ==> ekind(err) == "server_error" || ekind(err) == "invalid_request" || ekind(err) == "error"
+//@   ensures [C18.begin-matched-once] txl && tx_begun == old(tx_begun) + 1 ==> (tx_committed == old(tx_committed) + 1 && tx_rollback_calls == old(tx_rollback_calls)) || (tx_committed == old(tx_committed) && tx_rollback_calls == old(tx_rollback_calls) + 1)
+//@   ensures [C18.no-end-without-begin] tx_begun == old(tx_begun) ==> tx_commit_calls == old(tx_commit_calls) && tx_rollback_calls == old(tx_rollback_calls)
+//@   ensures [C18.tx-begun-once] tx_begun <= old(tx_begun) + 1
+//@   ensures [C18.no-commit-after-failure] tx_committed != old(tx_committed) ==> err == nil && faults == old(faults)
+//@   ensures [C18.commit-on-success] err == nil && txl ==> tx_committed == old(tx_committed) + 1
+//@   ensures [C18.rollback-restores] txl && err != nil && tx_rolledback == old(tx_rolledback) + 1 ==> tables_unchanged()
+//@   ensures [C18.no-change-before-begin] err != nil && tx_begun == old(tx_begun) && txl ==> tables_unchanged()
+//@   ensures [C18.serialization-is-retryable] txl && err != nil && tx_begun == old(tx_begun) + 1 && faults == old(faults) ==> ekind(err) == "invalid_request"
+//@   ensures [C18.fail-closed] (forall s string :: acc_exists[s] && !old(acc_exists[s]) ==> (forall t string :: old(ref_exists[t]) && old(ref_rid[t]) == rid && t != rsig ==> !ref_active[t]))
